@@ -531,7 +531,120 @@ def h19d(c):
         c.cover("round-trip")
 
 
+def h19u(c, n=40):
+    """uniqueness within a run under each clock regime the property names: the real clock, flumine's simulated clock (time stands still
+    between two market updates) and a coarse system clock (environment stub: time.time_ns / time.time / time.monotonic_ns return the same
+    instant for a symbolic number of consecutive calls); n orders in a tight loop and from 4 threads, Betfair and Betdaq orders mixed"""
+    import time as _time
+    import threading
+    from flumine.order.order import BetdaqOrder
+    from flumine.order.ordertype import BetdaqLimitOrder
+    from flumine.simulation.utils import SimulatedDateTime
+    regime = c.choose("clock", ["real", "simulated-standing-still", "coarse-system-clock"])
+    stride = c.choose("coarse_clock_ticks_every_n_calls", [1000000, 7]) if regime == "coarse-system-clock" else None
+    threaded = c.choose("threads", [1, 4])
+    c.tag("clock", regime)
+    strategy = BaseStrategy(market_filter={}, name="s")
+    made = []
+
+    def make(k):
+        out = []
+        for i in range(k):
+            tr = Trade(cm.MID, 1, 0, strategy)
+            if i % 2:
+                out.append(tr.create_betdaq_order("BACK", BetdaqLimitOrder(2.0, 5.0, 1, 0, 0), BetdaqOrder))
+            else:
+                out.append(tr.create_order("BACK", cm.LimitOrder(2.0, 2.0)))
+        made.extend(out)
+
+    saved = {k: getattr(_time, k) for k in ("time_ns", "time", "monotonic_ns", "perf_counter_ns")}
+    calls = {"n": 0}
+    base = saved["time_ns"]()
+
+    def coarse_ns():
+        calls["n"] += 1
+        return base + (calls["n"] // stride) * 15_600_000  # a 64 Hz timer
+
+    sim = SimulatedDateTime()
+    try:
+        if regime == "coarse-system-clock":
+            _time.time_ns = coarse_ns
+            _time.time = lambda: coarse_ns() / 1e9
+            _time.monotonic_ns = coarse_ns
+        with c.guard("create"):
+            if regime == "simulated-standing-still":
+                with sim:
+                    sim(cm.core._EPOCH + cm._dt.timedelta(milliseconds=cm.T0_MS))
+                    make(n)
+            elif threaded == 1:
+                make(n)
+            else:
+                ts = [threading.Thread(target=make, args=(n // 4,)) for _ in range(4)]
+                [t.start() for t in ts]
+                [t.join() for t in ts]
+    finally:
+        for k, v in saved.items():
+            setattr(_time, k, v)
+    ids = [o.id for o in made]
+    refs = [str(o.customer_order_ref) for o in made if hasattr(o, "customer_order_ref")]
+    c.ob("order-ids-unique-within-the-run", len(set(ids)) == len(ids), created=len(ids), distinct=len(set(ids)))
+    c.ob("customer-references-unique-within-the-run", len(set(refs)) == len(refs), created=len(refs), distinct=len(set(refs)))
+    c.ob("all-created", len(made) >= n // 4 * 4)
+    c.cover("unique")
+
+
+def h19b(c):
+    """Betdaq polling batch through the real process_betdaq_current_orders: entries whose reference is in no blotter (a bet placed on the
+    Betdaq site, another instance on the same account) are skipped wherever they stand in the batch; every other entry reaches exactly
+    the order that carries its reference"""
+    from flumine.baseflumine import BaseFlumine
+    from flumine.clients.betdaqclient import BetdaqClient
+    from flumine.clients.clients import ExchangeType
+    from flumine.events import events
+    from flumine.order.order import BetdaqOrder, OrderStatus
+    from flumine.order.ordertype import BetdaqLimitOrder
+    with cm.config_set(simulated=False):
+        client = BetdaqClient(betting_client=cm.NS(username="bdq", betting=cm.NS()), order_stream=False)
+        fl = BaseFlumine(client)
+        strategy = cm.add_live_strategy(fl, "s")
+        market = fl._add_market(cm.MID, cm.book([cm.runner(1)], version=7))
+        mine = []
+        for i in range(2):
+            tr = Trade(cm.MID, 1, 0, strategy)
+            o = tr.create_betdaq_order("BACK", BetdaqLimitOrder(2.0, 10.0, 1, 0, 0), BetdaqOrder)
+            o.update_client(client)
+            o.bet_id = 700 + i
+            market.blotter[o.id] = o
+            o.responses.placed({"order_id": 700 + i, "status": "Unmatched", "sequence_number": 1, "remaining_size": 10.0, "matched_size": 0.0})
+            o.status = OrderStatus.EXECUTABLE
+            o.status_log.append(OrderStatus.EXECUTABLE)
+            strategy.get_runner_context(*o.lookup).place(tr.id)
+            mine.append(o)
+        layout = c.choose("batch", ["known,foreign", "foreign,known", "known,foreign,known", "foreign", "known,known,foreign", "foreign,foreign,known"])
+        foreign_ref = c.choose("foreign_reference", [0, 123456789012345678])
+        c.tag("batch", layout)
+        batch, k_i = [], 0
+        for part in layout.split(","):
+            if part == "known":
+                o = mine[k_i]; k_i += 1
+                batch.append({"order_id": o.bet_id, "customer_reference": int(o.id), "status": "Unmatched", "sequence_number": 1, "price": 2.0,
+                              "matched_size": 0.0, "remaining_size": 10.0, "matched_price": 0.0})
+            else:
+                batch.append({"order_id": 999, "customer_reference": foreign_ref, "status": "Matched", "sequence_number": 5, "price": 7.0,
+                              "matched_size": 33.0, "remaining_size": 0.0, "matched_price": 7.0})
+        with c.guard("poll"):
+            fl._process_current_orders(events.CurrentOrdersEvent(batch, exchange=ExchangeType.BETDAQ))
+        for o in mine:
+            c.ob("own-order-untouched-by-foreign-entry", o.status == OrderStatus.EXECUTABLE and o.current_order.get("order_id") == o.bet_id
+                 and o.size_matched == 0.0 and o.order_type.price == 2.0, status=o.status.name, seen_order_id=o.current_order.get("order_id"))
+            c.ob("own-order-still-live", o in market.blotter._live_orders)
+        c.ob("no-order-adopted-for-foreign-entry", sum(len(m.blotter) for m in fl.markets) == 2)
+        c.cover("batch")
+
+
 HARNESSES = [
+    Harness("H19u", h19u, quick=dict(n=40), thorough=dict(n=400), pattern="environment stub (clock) + exhaustive regime product", requires=["unique"], selfcheck=False),
+    Harness("H19b", h19b, pattern="exhaustive choice product through the real Betdaq polling path", requires=["batch"], selfcheck=False),
     Harness("H19d", h19d, pattern="exhaustive choice product through the real adoption path", requires=["round-trip"], selfcheck=False),
     Harness("H19c", h19c, quick=dict(n_events=3), thorough=dict(n_events=4), pattern="P3 bounded history (schedule symbolic, strings concrete)",
             requires=["adopted", "ignored"], selfcheck=False),
